@@ -357,15 +357,11 @@ def gen_html() -> typing.Tuple[bool, str]:
         parts.append(autoescape_data(envt, utl))
         parts.append('Definition links_up_prefix : bool := %s.  (* type_info.j2 prefixes type links with the page depth *)'
                      % ('true' if links_up_prefix(os.path.join(gen.REPO, 'src/nunavut/lang/html/templates')) else 'false'))
-        names, sinks = template_data(os.path.join(gen.REPO, 'src/nunavut/lang/html/templates'))
+        names, _old_sinks = template_data(os.path.join(gen.REPO, 'src/nunavut/lang/html/templates'))
+        precise = doc_sink_flags(os.path.join(gen.REPO, 'src/nunavut/lang/html/templates'))
         parts.append('Definition html_template_names : list str := [\n  %s].' % ';\n  '.join('%s (* %s *)' % (_s(n), n) for n in names))
         # documentation sinks: (template, escaped?) -- the model's page builder takes one flag per template
-        by_t: typing.Dict[str, typing.List[bool]] = {}
-        for s in sinks:
-            by_t.setdefault(s['template'], []).append(s['escaped'])
-        for t, flags in by_t.items():
-            if len(set(flags)) != 1:
-                raise Unsupported('template %s escapes some documentation sinks explicitly and others not (model has one flag per template)' % t)
+        by_t: typing.Dict[str, typing.List[bool]] = {t: [v[0]] * v[1] for t, v in precise.items()}
         known = {'type_info.j2': 'docs_escaped_type_info', 'namespace_info.j2': 'docs_escaped_namespace_info',
                  'sidebar.j2': 'docs_escaped_sidebar', 'type_base.j2': 'docs_escaped_type_base'}
         for t in by_t:
@@ -682,7 +678,20 @@ class TemplateScan:
         self.imports: typing.Dict[str, str] = {}
         self.sets: typing.Dict[str, list] = {}
         self.outs: typing.List[dict] = []
+        self.includes: typing.List[tuple] = []
         self.cur_macro: typing.Optional[str] = None
+
+    def guards(self) -> typing.List[typing.Tuple[int, str]]:
+        """the control statements enclosing the current position inside the current macro / template:
+        (0, loop header) | (1, if condition) | (2, 'c0 / c1' for an elif) | (3, 'c0 / ... / else')"""
+        g = []
+        for fr in self.frames[1:]:
+            if fr['kind'] == 'for':
+                g.append((0, ' '.join(fr['text'].split())))
+            elif fr['kind'] == 'if':
+                n = len(fr['alts']) - 1
+                g.append((1 if n == 0 else (3 if fr['else'] else 2), ' / '.join(' '.join(c.split()) for c in fr['conds'][:n + 1])))
+        return g
 
     # ---- skeleton nodes ----
     def emit(self, node):
@@ -799,6 +808,7 @@ class TemplateScan:
             if name.endswith('.j2'):
                 self.need_text('include')
                 self.emit(('call', name))
+                self.includes.append((self.cur_macro, name, self.guards()))
             else:
                 if self.mode != 'raw' or self.raw not in ('script', 'style'):
                     raise Unsupported('%s:%d: asset %s included outside <script>/<style>' % (self.rel, line, name))
@@ -849,12 +859,13 @@ class TemplateScan:
             self.macros[fr['name']] = fr
             self.cur_macro = None
         elif kw == 'if':
-            self.frames.append({'kind': 'if', 'alts': [[]], 'else': False})
+            self.frames.append({'kind': 'if', 'alts': [[]], 'else': False, 'conds': [rest]})
         elif kw in ('elif', 'else'):
             fr = self.frames[-1]
             if fr['kind'] != 'if' or fr['else']:
                 raise Unsupported('%s:%d: %s outside if (for-else is not supported)' % (self.rel, line, kw))
             fr['else'] = kw == 'else'
+            fr['conds'].append(rest if kw == 'elif' else 'else')
             fr['alts'].append([])
         elif kw == 'endif':
             fr = self.frames.pop()
@@ -866,7 +877,7 @@ class TemplateScan:
         elif kw == 'for':
             if ' recursive' in rest:
                 raise Unsupported('%s:%d: recursive loop' % (self.rel, line))
-            self.frames.append({'kind': 'for', 'nodes': []})
+            self.frames.append({'kind': 'for', 'nodes': [], 'text': rest})
         elif kw == 'endfor':
             fr = self.frames.pop()
             if fr['kind'] != 'for':
@@ -887,7 +898,8 @@ class TemplateScan:
             ctx = RAW_ELEMENTS[self.raw]
         else:
             raise Unsupported('%s:%d: output inside %s' % (self.rel, line, self.mode))
-        rec = {'rel': self.rel, 'line': line, 'ctx': ctx, 'expr': e, 'src': ' '.join(body.split()), 'macro': self.cur_macro}
+        rec = {'rel': self.rel, 'line': line, 'ctx': ctx, 'expr': e, 'src': ' '.join(body.split()), 'macro': self.cur_macro,
+               'guards': self.guards()}
         self.outs.append(rec)
         if ctx == CTX_TEXT:
             self.emit(('out', rec))
@@ -1021,10 +1033,52 @@ class Classifier:
                 return 'markup'
             if name == 'namespace_doc':
                 return 'dsdl_text'
-            if name in KEEP_FILTERS:
+            if name in KEEP_FILTERS or name == 'safe':
                 return self.cls(sc, macro, e[2])
             return 'unknown'
         return 'unknown'
+
+    def has(self, sc: TemplateScan, macro, e, pred, seen=None) -> bool:
+        """does `pred` hold of a node anywhere inside e, looking through variables ({% set %}, macro parameters)?"""
+        seen = set() if seen is None else seen
+        if not isinstance(e, tuple):
+            return False
+        if pred(e):
+            return True
+        if e[0] == 'name':
+            tok = (sc.rel, macro, e[1])
+            if tok in seen:
+                return False
+            seen.add(tok)
+            for m2, rhs in sc.sets.get(e[1], []):
+                if m2 == macro and self.has(sc, macro, rhs, pred, seen):
+                    return True
+            if macro in sc.macros:
+                params = sc.macros[macro]['params']
+                names = [p for p, _ in params]
+                if e[1] in names:
+                    idx = names.index(e[1])
+                    if params[idx][1] is not None and self.has(sc, macro, params[idx][1], pred, seen):
+                        return True
+                    for csc, cmacro, pos, kw in self.calls.get('%s:%s' % (sc.rel, macro), []):
+                        arg = pos[idx] if idx < len(pos) else kw.get(e[1])
+                        if arg is not None and self.has(csc, cmacro, arg, pred, seen):
+                            return True
+            return False
+        for x in e[1:]:
+            if isinstance(x, tuple) and self.has(sc, macro, x, pred, seen):
+                return True
+            if isinstance(x, list) and any(self.has(sc, macro, y, pred, seen) for y in x):
+                return True
+            if isinstance(x, dict) and any(self.has(sc, macro, y, pred, seen) for y in x.values()):
+                return True
+        return False
+
+    def has_doc(self, sc, macro, e) -> bool:
+        return self.has(sc, macro, e, lambda n: (n[0] == 'attr' and n[2] == 'doc') or (n[0] == 'filter' and n[1] == 'namespace_doc'))
+
+    def has_safe(self, sc, macro, e) -> bool:
+        return self.has(sc, macro, e, lambda n: n[0] == 'filter' and n[1] == 'safe')
 
 
 def _coq_skl(nodes: list, sites: list, sc: TemplateScan, cl: Classifier) -> str:
@@ -1062,34 +1116,63 @@ def _coq_skl(nodes: list, sites: list, sc: TemplateScan, cl: Classifier) -> str:
     return out
 
 
+def scan_templates(root: str):
+    """(template names, scans, classifier, output-site table, call-guard table)"""
+    rels = []
+    for d, _, fs in os.walk(root):
+        for f in sorted(fs):
+            if f.endswith('.j2'):
+                rels.append(os.path.relpath(os.path.join(d, f), root).replace(os.sep, '/'))
+    rels.sort()
+    sites: list = []
+    scans = {rel: TemplateScan(root, rel, sites).run() for rel in rels}
+    cl = Classifier(scans)
+    table, calls = [], []
+    for rel in rels:
+        sc = scans[rel]
+        for mac, name, g in sc.includes:
+            calls.append(('%s:%s' % (rel, mac) if mac else rel, name, g))
+        for o in sc.outs:
+            e = o['expr']
+            key = cl.key_of(sc, e[1][1]) if e[0] == 'call' and e[1][0] == 'name' else None
+            if key:
+                if o['ctx'] != CTX_TEXT:
+                    raise Unsupported('%s:%d: macro call outside a text position' % (rel, o['line']))
+                calls.append(('%s:%s' % (rel, o['macro']) if o['macro'] else rel, key, o['guards']))
+                continue
+            o['index'] = len(table)
+            o['cls'] = cl.cls(sc, o['macro'], e)
+            o['doc'] = cl.has_doc(sc, o['macro'], e)
+            o['safe'] = cl.has_safe(sc, o['macro'], e)
+            table.append(o)
+    return rels, scans, cl, table, calls
+
+
+def doc_sink_flags(root: str) -> typing.Dict[str, typing.Tuple[bool, int]]:
+    """per template: (every output that can carry documentation text is escaped AS A WHOLE, number of such outputs).
+    Documentation text = `.doc` / `namespace_doc` anywhere in the expression, also through {% set %} variables and macro
+    arguments; escaped as a whole = the parse with Jinja precedence ends in e / escape / forceescape (possibly followed by
+    value-preserving filters)."""
+    rels, scans, cl, table, _ = scan_templates(root)
+    by_t: typing.Dict[str, typing.List[bool]] = {}
+    for o in table:
+        if o['doc']:
+            by_t.setdefault(o['rel'], []).append(o['cls'] == 'escaped')   # `x | e | safe` is escaped; `safe` only voids the autoescape shortcut
+    out = {}
+    for t, flags in by_t.items():
+        if len(set(flags)) != 1:
+            raise Unsupported('template %s escapes some documentation outputs as a whole and others not (model has one flag per template)' % t)
+        out[t] = (flags[0], len(flags))
+    return out
+
+
 def gen_htmlskel() -> typing.Tuple[bool, str]:
     out_path = os.path.join(gen.GEN_DIR, 'Gen_HtmlSkel.v')
     head = (gen.HEADER % 'src/nunavut/lang/html/templates/**/*.j2 (and the assets they include)'
             + 'From Verif Require Import HtmlSkelBase.\nOpen Scope N_scope.\n\n')
     root = os.path.join(gen.REPO, 'src/nunavut/lang/html/templates')
     try:
-        rels = []
-        for d, _, fs in os.walk(root):
-            for f in sorted(fs):
-                if f.endswith('.j2'):
-                    rels.append(os.path.relpath(os.path.join(d, f), root).replace(os.sep, '/'))
-        rels.sort()
-        sites: list = []
-        scans = {rel: TemplateScan(root, rel, sites).run() for rel in rels}
-        cl = Classifier(scans)
-        # output sites that are not macro calls get an index and a class
-        table = []
-        for rel in rels:
-            sc = scans[rel]
-            for o in sc.outs:
-                e = o['expr']
-                if e[0] == 'call' and e[1][0] == 'name' and cl.key_of(sc, e[1][1]):
-                    if o['ctx'] != CTX_TEXT:
-                        raise Unsupported('%s:%d: macro call outside a text position' % (rel, o['line']))
-                    continue
-                o['index'] = len(table)
-                o['cls'] = cl.cls(sc, o['macro'], e)
-                table.append(o)
+        rels, scans, cl, table, calls = scan_templates(root)
         entries = []
         for rel in rels:
             sc = scans[rel]
@@ -1104,14 +1187,19 @@ def gen_htmlskel() -> typing.Tuple[bool, str]:
                 if tgt not in keys:
                     raise Unsupported('%s calls/includes %s which is not a scanned template or macro' % (k, tgt))
         parts = ['Definition html_sites : list site := [\n  %s].' % ';\n  '.join(
-            '{| st_template := %s; st_line := %d; st_ctx := %d; st_cls := %d |} (* %d %s:%d %s : %s *)'
-            % (_s(o['rel']), o['line'], o['ctx'], CLS[o['cls']], o['index'], o['rel'], o['line'], o['cls'],
+            '{| st_template := %s; st_line := %d; st_ctx := %d; st_cls := %d; st_safe_filter := %s |} (* %d %s:%d %s : %s *)'
+            % (_s(o['rel']), o['line'], o['ctx'], CLS[o['cls']], 'true' if o['safe'] else 'false', o['index'], o['rel'], o['line'], o['cls'],
                o['src'].replace('*)', '* )').replace('(*', '( *').replace('"', "''"))
             for o in table)]
         parts.append('Definition html_skeletons : list (str * skl) := [\n  %s].' % ';\n  '.join(
             '(%s (* %s *),\n   %s)' % (_s(k), k, body) for k, body in entries))
         parts.append('Definition html_entry_templates : list str := [%s].' % '; '.join(
             _s(r) for r in rels if r[:1].isupper()))
+        # inlining structure: every macro call / include with the loops and conditions that guard it
+        parts.append('Definition html_call_guards : list (str * str * list (N * str)) := [\n  %s].' % ';\n  '.join(
+            '(%s, %s, [%s]) (* %s -> %s under %s *)' % (_s(a), _s(b), '; '.join('(%d, %s)' % (k, _s(t)) for k, t in g), a, b,
+                                                      ' ; '.join('%s %s' % (['for', 'if', 'elif', 'else'][k], t) for k, t in g).replace('*)', '* )').replace('(*', '( *').replace('"', "''"))
+            for a, b, g in calls))
     except (Unsupported, SyntaxError, OSError, ValueError, KeyError, IndexError) as ex:
         gen.write_if_changed(out_path, head + '(* translator failed closed: %s *)\n' % str(ex).replace('*)', '* )'))
         return False, 'template skeleton scanner failed closed: %s' % ex
